@@ -504,6 +504,52 @@ def boundary_compare_rule(rep):
         raise AnalysisBroken("compareBoundaryPoints: cases no longer recognised (%s of 3)" % sorted(seen))
 
 
+def iterator_fixup_rule(rep):
+    from ..engines import advance
+    rep.rule("C14.i", "a NodeIterator keeps its position when its reference node is removed (DOM Traversal 1.1.1: the position is the "
+             "reference node plus before/after): DOMNodeIteratorImpl::removeNode interpreted for both directions and both answers of "
+             "nextNode — when the new reference node is the one *before* the removed subtree the iterator is positioned after it "
+             "(fForward true), when it is the one *following* the subtree the iterator stays before it (fForward false); otherwise the "
+             "next previousNode()/nextNode() call returns the reference node a second time or skips it")
+    g = core.run_xa([os.path.join(core.REPO, "src/xercesc/dom/impl/DOMNodeIteratorImpl.cpp")], st=r"^DOMNodeIteratorImpl::removeNode$", flat=False)
+    body = g.st("DOMNodeIteratorImpl::removeNode")["body"]
+    PREV, NEXT, OLD = 101, 202, 303      # distinct non-null node identities
+    n = 0
+    for fwd in (0, 1):
+        for has_next in (0, 1):
+            def hook(x, st, it, has_next=has_next):
+                nm = x[1] if isinstance(x[1], str) else ""
+                if nm.endswith("::matchNodeOrParent"):
+                    return 1
+                if nm.endswith("::previousNode"):
+                    return PREV
+                if nm.endswith("::nextNode"):
+                    return NEXT if has_next else 0
+                return NotImplemented
+            it = advance.Interp(call_hook=hook)
+            st0 = advance.State({"f:DOMNodeIteratorImpl::fForward": fwd, "f:DOMNodeIteratorImpl::fDetached": 0,
+                                 "f:DOMNodeIteratorImpl::fCurrentNode": OLD, "p:node": 1})
+            bad = []
+            outs = 0
+            for kind, s2 in it.run(body, st0):
+                outs += 1
+                cur, f2 = s2.v.get("f:DOMNodeIteratorImpl::fCurrentNode"), s2.v.get("f:DOMNodeIteratorImpl::fForward")
+                if cur == PREV and f2 != 1:
+                    bad.append("the reference node becomes the node before the removed subtree but fForward is %s" % f2)
+                elif cur == NEXT and f2 != 0:
+                    bad.append("the reference node becomes the node after the removed subtree but fForward is %s" % f2)
+                elif cur not in (PREV, NEXT):
+                    bad.append("the reference node is not moved off the subtree that is being removed")
+            if not outs:
+                raise AnalysisBroken("DOMNodeIteratorImpl::removeNode: no normal path under fForward=%d" % fwd)
+            n += 1
+            rep.ob("C14.i", "removeNode/%s/%s" % ("forward" if fwd else "backward", "next-exists" if has_next else "no-next"), not bad,
+                   "position kept" if not bad else "DOMNodeIteratorImpl::removeNode (%s iteration, %s): %s" %
+                   ("forward" if fwd else "backward", "a node follows the removed subtree" if has_next else "nothing follows the removed subtree", bad[0]),
+                   "src/xercesc/dom/impl/DOMNodeIteratorImpl.cpp")
+    rep.floor("C14.i", n, 4)
+
+
 def run(rep):
     f = core.library_facts()
     rep.units.update(os.path.relpath(t, core.REPO) for t in f.tus)
@@ -515,6 +561,7 @@ def run(rep):
     tombstone_rule(rep, f)
     delete_data_rule(rep)
     boundary_compare_rule(rep)
+    iterator_fixup_rule(rep)
     diag.run(rep, f, "C14")
     from ..engines import dispatch
     dispatch.run(rep, f, "C14")
